@@ -50,6 +50,7 @@ from moptipyapps.binpacking2d.packing_result import (
     KEY_N_ITEMS,
     LOWER_BOUNDS_BIN_COUNT,
     PackingResult,
+    _rescope_bin_bounds,
 )
 from moptipyapps.binpacking2d.packing_result import from_csv as pr_from_csv
 from moptipyapps.binpacking2d.packing_result import from_logs as pr_from_logs
@@ -528,8 +529,7 @@ class CsvReader:
         #: the indices for the objective bounds
         self.__bin_bounds: Final[tuple[tuple[str, int], ...]] = \
             csv_select_scope(
-                lambda x: tuple(sorted(((k, v) for k, v in x.items()))),
-                columns, LOWER_BOUNDS_BIN_COUNT)
+                _rescope_bin_bounds, columns, LOWER_BOUNDS_BIN_COUNT)
         if tuple.__len__(self.__bin_bounds) <= 0:
             raise ValueError("No bin bounds found?")
         #: the objective bounds columns
